@@ -19,6 +19,7 @@ def main():
 HARNESSES = [
     ("wh", ("walrus_verif",), False),
     ("wh", ("walrus_verif", "walrus_verif_small"), False),
+    ("wh", ("walrus_verif", "walrus_verif_small"), True),      # C11 runs the release profile too
     ("dwh", (), False),
     ("dwh", (), True),
     ("owh", (), False),
